@@ -30,9 +30,9 @@ type PropSpec struct {
 	Solver      string // default back end
 	Units       func(tier string, seed int64, sh *Shared) []Unit
 	MaxSteps    int64
-	MaxPaths    int      // per unit
-	TimeoutMs   int      // per solver query
-	Reach       []string // vacuity labels that must be reached somewhere
+	MaxPaths    int               // per unit
+	TimeoutMs   int               // per solver query
+	Reach       []string          // vacuity labels that must be reached somewhere
 	ReachEntry  map[string]string // vacuity label → the only entry that can reach it (skipped when that entry's harness file was dropped)
 	Bounds      func(tier string) map[string]interface{}
 	Assumptions []string
